@@ -119,6 +119,7 @@ def check(tier="quick", seed=0, repo="/repo"):
             else:
                 res["open"][name] = dict(kind="ground", status="refuted", text=f"javascript type_map[{n!r}] = {got!r}; parser format {fmt!r}", reason="ground mismatch", candidates=[])
     check_emitters(res, repo)
+    check_meta(res, repo)
     # the version hash printed by every back end is the same 32-bit prefix of the parser's digest (shared with C13)
     from . import hashcheck
 
@@ -268,7 +269,7 @@ def replay_open(res, repo):
             mine = [l for l in lines if "constant " in l]
         elif "msg_type_id" in name or "host_id" in name or "module_id" in name:
             mine = [l for l in lines if "message id" in l]
-        elif "/tables/" in name or "/emit/struct" in name or "/emit/message" in name or "type_alias" in name:
+        elif "/tables/" in name or "/emit/struct" in name or "/emit/message" in name or "type_alias" in name or "/python-class/" in name:
             mine = [l for l in lines if "sizeof" in l or "offsetof" in l or "does not compile" in l or "field list" in l]
         else:
             mine = [l for l in lines if "version hash" in l]
@@ -277,3 +278,97 @@ def replay_open(res, repo):
             info["reproduced"] = True
             info["replay_how"] = f"/venv/bin/python replay/compile_replay.py {repo}"
             info["text"] = info["text"] + "\nreplayed with the real compiler (and gcc): " + " | ".join(mine[:4])
+
+
+# ---------------------------------------------------------------------------------------------------------
+# MessageMeta.__new__ (message_base.py) turns the descriptors of a generated class body into the ctypes _fields_ list: the link between the text
+# the Python back end prints and the byte layout of the class.  Contract (dataflow, decided on the real AST):
+#   (M1) every class-body entry whose value has a `_ctype` attribute becomes the field ("_" + key, value._ctype), whatever the key looks like:
+#        on the path to the hasattr test no condition on the key other than `key == "_fields_"` is taken;
+#   (M2) the field name is "_" + key and the field type is that value's _ctype.
+def check_meta(res, repo):
+    name = "C04/python-class/every-descriptor-becomes-a-ctypes-field"
+    res["obligations"] += 1
+    try:
+        tree = ast.parse(open(os.path.join(repo, "src", "pyrtma", "message_base.py")).read())
+    except (OSError, SyntaxError) as ex:
+        res["crashes"].append(f"message_base.py: {ex}")
+        return
+    cls = next((n for n in tree.body if isinstance(n, ast.ClassDef) and n.name == "MessageMeta"), None)
+    fd = next((n for n in (cls.body if cls else []) if isinstance(n, ast.FunctionDef) and n.name == "__new__"), None)
+    if fd is None or len(fd.args.args) < 4:
+        res["undecided"].append(f"{name}: MessageMeta.__new__(cls, name, bases, namespace) not found")
+        return
+    ns = fd.args.args[3].arg
+    loops = [n for n in fd.body if isinstance(n, ast.For) and ns in {x.id for x in ast.walk(n.iter) if isinstance(x, ast.Name)}]
+    if len(loops) != 1:
+        res["undecided"].append(f"{name}: expected one loop over {ns}")
+        return
+    loop = loops[0]
+    if isinstance(loop.target, ast.Name):
+        keyv, valexprs = loop.target.id, {f"{ns}[{loop.target.id}]"}
+    elif isinstance(loop.target, ast.Tuple) and len(loop.target.elts) == 2 and all(isinstance(x, ast.Name) for x in loop.target.elts):
+        keyv = loop.target.elts[0].id
+        valexprs = {loop.target.elts[1].id, f"{ns}[{keyv}]"}
+    else:
+        res["undecided"].append(f"{name}: loop target {ast.unparse(loop.target)}")
+        return
+
+    def is_probe(t):
+        return (isinstance(t, ast.Call) and isinstance(t.func, ast.Name) and t.func.id == "hasattr" and len(t.args) == 2 and ast.unparse(t.args[0]) in valexprs
+                and isinstance(t.args[1], ast.Constant) and t.args[1].value == "_ctype")
+
+    def is_fields_key(t, neg=False):
+        return (isinstance(t, ast.Compare) and len(t.ops) == 1 and isinstance(t.ops[0], ast.NotEq if neg else ast.Eq) and
+                {ast.unparse(t.left), ast.unparse(t.comparators[0])} == {keyv, "'_fields_'"})
+    guards = []          # conditions on the key that exclude an entry from the probe
+    found = []
+
+    def walk(stmts, excl):
+        for st in stmts:
+            if isinstance(st, ast.If):
+                if is_probe(st.test):
+                    found.append((st, list(excl)))
+                    walk(st.orelse, excl)
+                elif is_fields_key(st.test):
+                    walk(st.orelse, excl)          # the _fields_ entry itself is not a descriptor
+                    # statements after an if that does not leave the iteration are reached by every key
+                elif is_fields_key(st.test, neg=True):
+                    walk(st.body, excl)
+                else:
+                    names = {x.id for x in ast.walk(st.test) if isinstance(x, ast.Name)}
+                    if keyv in names or names & {v for v in valexprs if v.isidentifier()}:
+                        leaves = any(isinstance(x, (ast.Continue, ast.Break, ast.Return)) for x in ast.walk(ast.Module(body=st.body, type_ignores=[])))
+                        walk(st.body, excl)                                   # entries satisfying the test
+                        walk(st.orelse, excl + [ast.unparse(st.test)])        # the probe in the else arm excludes entries satisfying the test
+                        if leaves:
+                            excl = excl + [ast.unparse(st.test)]              # ... and so does everything after an arm that leaves the iteration
+                    else:
+                        walk(st.body, excl); walk(st.orelse, excl)
+    walk(loop.body, [])
+    if not found:
+        res["undecided"].append(f"{name}: no hasattr(<entry>, '_ctype') test found in the loop over {ns}")
+        return
+    st, excl = found[0]
+    if excl:
+        res["open"][name] = dict(kind="ensures", status="refuted", reason="dataflow", candidates=[],
+                                 text=f"MessageMeta.__new__ does not probe class-body entries for which `{excl[0]}` holds: a field descriptor with such a name never becomes a ctypes field, so the "
+                                      "generated Python class is smaller than the C struct the same definition produces and every later offset shifts")
+        return
+    app = [c for c in ast.walk(ast.Module(body=st.body, type_ignores=[])) if isinstance(c, ast.Call) and isinstance(c.func, ast.Attribute) and c.func.attr == "append"]
+    defs = {n.targets[0].id: ast.unparse(n.value) for n in ast.walk(ast.Module(body=st.body, type_ignores=[])) if isinstance(n, ast.Assign) and isinstance(n.targets[0], ast.Name)}
+    good = False
+    for c in app:
+        if len(c.args) == 1 and isinstance(c.args[0], ast.Tuple) and len(c.args[0].elts) == 2:
+            a, b = (ast.unparse(x) for x in c.args[0].elts)
+            a, b = defs.get(a, a), defs.get(b, b)
+            if a in (f"'_' + {keyv}", f'"_" + {keyv}') and any(b == f"{v}._ctype" for v in valexprs):
+                good = True
+    if good:
+        res["discharged"] += 1
+        res["discharged_names"].append(name)
+        res["by_backend"]["dataflow"] = res["by_backend"].get("dataflow", 0) + 1
+        res["samples"].append(dict(obligation=name, goal="every class-body entry with a _ctype attribute is appended to _fields_ as ('_' + key, entry._ctype); no condition on the key's spelling guards it",
+                                   backend="dataflow"))
+    else:
+        res["undecided"].append(f"{name}: the probe's branch does not append ('_' + {keyv}, <entry>._ctype)")
